@@ -63,6 +63,11 @@ def parseAct (a : String) : Option Act :=
         match src.toList with
         | 'c' :: vs => (parseIntList (String.ofList vs)).map fun l => Act.emitEcho (.const l) prop
         | 'i' :: n => (String.ofList n).toInt?.map fun k => Act.emitEcho (.input k) prop
+        | 'n' :: nv => match (String.ofList nv).splitOn "x" with
+          | [n, v] => match n.toNat?, v.toInt? with
+            | some k, some x => some (Act.emitEcho (.rep k x) prop)
+            | _, _ => none
+          | _ => none
         | _ => none
       | none => none
     | _ => none
@@ -178,10 +183,14 @@ def showFirst (w : World) : Option Val → String
   | some (.cursor i) => showCursor w i
   | some (.call c) => s!"C{c}"
 
+/-- Literal entries, sorted by (key, value): a handler's emit metadata reaches the wire through a Go map, so
+    the order of distinct keys is not part of the observable behaviour. -/
 def showLits (m : Meta) : String :=
-  ",".intercalate (m.filterMap fun kv => match kv.2 with
-    | .lit b => some (hexOfBytes kv.1 ++ "=" ++ hexOfBytes b)
-    | _ => none)
+  let lits : List (String × String) := m.filterMap fun kv => match kv.2 with
+    | .lit b => some (hexOfBytes kv.1, hexOfBytes b)
+    | _ => none
+  let sorted := lits.mergeSort fun a b => decide (a.1 < b.1) || (a.1 == b.1 && decide (a.2 ≤ b.2))
+  ",".intercalate (sorted.map fun kv => kv.1 ++ "=" ++ kv.2)
 
 def showData (w : World) (vals : List Int) (m : Meta) : String :=
   "D[" ++ showInts vals ++ "]{" ++ showLits m ++ "}^" ++ showFirst w (getFirst keyState m) ++ "~" ++
